@@ -42,8 +42,30 @@ def decrypt (s : Suite) (sek svk wire : Bytes) : Dec :=
       | none => .reject
   | _ => .reject
 
+/-- `SessionCrypter.Encrypt` followed by `cbor.Marshal` of the tagged result, for the random bytes `rnd`. -/
+def encrypt (s : Suite) (sek svk rnd p : Bytes) : Option Bytes :=
+  match encryptVal prims s sek svk Fdo.Gen.Schemas.s_Encrypt0 rnd p with
+  | some (t, inner, _) =>
+    let sch := if t = 16 then Fdo.Gen.Schemas.s_Encrypt0 else Fdo.Gen.Schemas.s_Mac0_Encrypt0_
+    (marshalS sch inner).map fun b => encHead 6 t ++ b
+  | none => none
+
 def handle (cmd : String) (args : List String) : Option String :=
   match cmd, args with
+  | "tunnel.encrypt", [id, sek, svk, rnd, pt] => do
+    let id ← id.toInt?
+    let s ← suiteOf id
+    let sek ← ofHex sek
+    let svk ← ofHex svk
+    let rnd ← ofHex rnd
+    let pt ← ofHex pt
+    match encrypt s sek svk rnd pt with
+    | some w =>
+      -- the model's own receiver must open what the model's sender built (executable instance of decrypt_encrypt)
+      match decrypt s sek svk w with
+      | .ok q => some s!"ok {hexOrDash w} {if q == pt then "self-ok" else "self-differs"}"
+      | .reject => some s!"ok {hexOrDash w} self-reject"
+    | none => some "err"
   | "tunnel.decrypt", [id, sek, svk, wire] => do
     let id ← id.toInt?
     let s ← suiteOf id
